@@ -198,6 +198,7 @@ type Publisher struct {
 	gate        chan struct{}
 	inFlight    int // block requests currently being served (including parked)
 	MaxInFlt    int
+	Legacy      bool          // serves /head and /<cid> at the root only (no IPNI path): requests for the IPNI path get 404
 	headBody    []byte        // custom head for every head request (C03)
 	parked      atomic.Int32  // requests of this publisher parked at its gate right now
 	headGate    chan struct{} // non-nil: head requests park here
@@ -341,14 +342,31 @@ func (p *Publisher) BuildEntries(n int, tag int) []cid.Cid {
 // PreviousID names the current head's *content* under another hash function: a CID whose multihash code is
 // code but whose digest is the digest of the current head's block under the chain's own hash function. The
 // body of the current head is served for that CID. Returns the crafted CID (no honest client may store it).
-func (p *Publisher) MislabelHead(code uint64) cid.Cid {
+func (p *Publisher) MislabelHead(code uint64) cid.Cid { return p.MislabelHeadAs(code, 0) }
+
+// MislabelHeadAs is MislabelHead with another source for the digest: digestCode != 0 names the function the digest
+// of the current head's body is computed with (e.g. the native 160-bit member of a hash family), and the crafted
+// CID labels it as `code` with that digest's length (e.g. the 256-bit member truncated to 160 bits).
+func (p *Publisher) MislabelHeadAs(code, digestCode uint64) cid.Cid {
 	cur := p.Chain[len(p.Chain)-1]
 	body := p.Body(cur)
 	dm, err := multihash.Decode(cur.Hash())
 	if err != nil {
 		panic(err)
 	}
-	mh, err := multihash.Encode(dm.Digest, code)
+	digest := dm.Digest
+	if digestCode != 0 {
+		sum, err := multihash.Sum(body, digestCode, -1)
+		if err != nil {
+			panic(err)
+		}
+		sd, err := multihash.Decode(sum)
+		if err != nil {
+			panic(err)
+		}
+		digest = sd.Digest
+	}
+	mh, err := multihash.Encode(digest, code)
 	if err != nil {
 		panic(err)
 	}
@@ -529,12 +547,24 @@ func (p *Publisher) ServeHTTP(rw http.ResponseWriter, r *http.Request) {
 			req.Kind = "other"
 		}
 	}
+	if p.Legacy && strings.Contains(r.URL.Path, "/ipni/v1/ad/") {
+		// a publisher from before the IPNI path existed: it serves /head and /<cid> only and knows nothing of the
+		// path the client tries first. Logged as a probe: not a block request, never faulted.
+		req.Kind, req.Cid = "probe", ""
+	}
 	w.mu.Lock()
 	req.Seq = len(w.reqs)
 	req.Attempt = w.Attempt
 	w.reqs = append(w.reqs, req)
 	w.mu.Unlock()
 	w.Bump()
+	if req.Kind == "probe" {
+		w.mu.Lock()
+		req.Status, req.Done = 404, true
+		w.mu.Unlock()
+		http.Error(rw, "404 page not found", http.StatusNotFound)
+		return
+	}
 	defer func() {
 		w.mu.Lock()
 		req.Done = true
@@ -614,7 +644,13 @@ func (p *Publisher) ServeHTTP(rw http.ResponseWriter, r *http.Request) {
 
 	// honest response
 	rec := httptest.NewRecorder()
-	p.Pub.ServeHTTP(rec, r)
+	if p.Legacy {
+		r2 := r.Clone(r.Context())
+		r2.URL.Path = "/ipni/v1/ad/" + base
+		p.Pub.ServeHTTP(rec, r2)
+	} else {
+		p.Pub.ServeHTTP(rec, r)
+	}
 	status, body := rec.Code, rec.Body.Bytes()
 	if req.Kind == "head" && headBody != nil {
 		status, body = 200, headBody
